@@ -181,6 +181,28 @@ def c13_command_shapes(repo):
     return out
 
 
+def c19_version_pairs(repo):
+    """platform x (config, log) pairs incl. ones whose versions differ (the shipped inYJ snapshots are cfg 62 / log 59)"""
+    out = []
+    for p in c04_platforms(repo):
+        if not p["cfg"] or not p["log"]:
+            continue
+        pairs = [(p["cfg"][0], p["log"][-1]), (p["cfg"][-1], p["log"][0])]
+        for c, l in dict.fromkeys(pairs):
+            out.append({"id": "%s-c%d-l%d" % (p["platform"], c, l), "platform": p["platform"], "name": p["name"], "cfg": c, "log": l,
+                        "example": "%s cfg %d log %d" % (p["name"], c, l)})
+    return out
+
+
+def c19_chunks(repo):
+    import os as _os
+    tier = _os.environ.get("VERIF_TIER_EFFECTIVE", "quick")
+    tricky = [0x00, 0x0a, 0x0d, 0x20, 0x22, 0x27, 0x5b, 0x5c, 0x5d, 0x2c, 0x30, 0x78, 0x41, 0x7f, 0x80, 0xff, 0x3c, 0x3e, 0x2f]
+    firsts = list(range(256)) if tier == "thorough" else tricky
+    n = 16
+    return [{"id": "chunk%d" % i, "first": firsts[i::n], "singles": True, "example": "first bytes %s..." % firsts[i::n][:3]} for i in range(n) if firsts[i::n]]
+
+
 def c04_platforms(repo):
     mods = all_modules(repo)
     out = []
